@@ -223,6 +223,10 @@ func genPred(r *Rand, t table, depth int, tags *[]string) *Expr {
 	case 0, 1:
 		op := Pick(r, cmpOps)
 		tag("num" + op)
+		if r.Chance(6) {
+			tag("cmp-null-operand")
+			return Cmp(op, Col(Pick(r, []string{"z", "missing"})), Num(t.numConst(r)))
+		}
 		if r.Bool() {
 			return Cmp(op, Col(Pick(r, t.numCols)), Num(t.numConst(r)))
 		}
@@ -248,6 +252,11 @@ func genPred(r *Rand, t table, depth int, tags *[]string) *Expr {
 		var a *Expr
 		if r.Bool() {
 			a = Col(Pick(r, t.numCols))
+			if r.Chance(8) {
+				// outside the claim (NULL / missing operand) but inside the model: keeps the tie honest there too
+				a = Col(Pick(r, []string{"z", "missing"}))
+				tag("in-null-operand")
+			}
 			for i := 0; i < k; i++ {
 				items = append(items, Num(t.numConst(r)))
 			}
